@@ -27,7 +27,8 @@ import onnx_ir as ir
 from onnx_ir import _multi_device
 
 from vfpy import shrink
-from vfpy.c19_world import C19World, Index, OpGen, gen_spec, io_values, on_node
+from vfpy.c19_world import (C19World, Index, OpGen, gen_spec, io_values, on_node, resolution_ok,
+                             shadowed_spec_refs)
 from vfpy.ctx import stable_hash
 from vfpy.histories import raise_site
 
@@ -37,7 +38,7 @@ ID = "C19"
 LEVEL = "exploration"
 RULE = ("a case is one generated model (main graph + subgraphs + function; values of known and unknown rank; IR "
         "11-13) and a history of 12-70 operation descriptors over {add/remove_device_configuration (cascade, by object "
-        "or name), shard (valid and invalid request classes), set_pipeline_stage, rename, replace_input_with, "
+        "or name), shard (valid and invalid request classes), set_pipeline_stage, rename (to a fresh name, or to the name of a value of an enclosing/sibling graph = shadowing), replace_input_with, "
         "resize_inputs/outputs, replace_all_uses_with, safe remove, clone, serialise+deserialise}; all clauses are "
         "checked after every step; non-trivial = >=3 edit/clone/round-trip/cascade steps executed while a sharding "
         "spec was live and annotations in >=2 scopes; distinct = hash of the sequence of (operation kind, request class, raised)")
@@ -47,13 +48,13 @@ ASSUMPTIONS = [
     "[-rank, rank-1] when rank is known, no repeated axis (aliases compared modulo rank when known, literally otherwise), "
     "no stage different from an existing one in shard(); set_pipeline_stage with a different stage and duplicate "
     "configuration names are report-only (documentation and statement disagree or are silent)",
-    "workload confinement: device indices in range, shapes never edited, unique non-empty names per namespace, graphs "
+    "workload confinement: device indices in range, shapes never edited, non-empty names unique within each graph (inner values may shadow names of enclosing or sibling graphs, provided every by-identity reference is what an innermost-first name lookup finds; re-asserted after every step), graphs "
     "kept topologically sorted, a configuration still referenced by nodes is never removed without cascade",
     "_check_device_configurations is the library's own checker named by the statement (private; absence makes the shard fail, i.e. inconclusive)",
     "a node annotation dropped by clone/deserialisation is counted (report_only_annotations_lost), not judged: the statement does not demand preservation",
 ]
 
-EDIT_KINDS = {"rename", "rin", "rsi", "rso", "rauw", "rm", "clone", "roundtrip", "rmcfg-cascade", "rmcfg-cascade-byname"}
+EDIT_KINDS = {"rename", "rename-shadow", "rin", "rsi", "rso", "rauw", "rm", "clone", "roundtrip", "rmcfg-cascade", "rmcfg-cascade-byname"}
 PROTO_SITES = ("device", "shard")
 
 
@@ -186,8 +187,17 @@ class Monitor:
                 else:
                     raise res.exc  # not an outcome the workload is meant to produce: harness/library problem -> inconclusive
 
+        # ---- harness self-check: name-based serialisation of the workload is well defined ---------
+        if not resolution_ok(idx):
+            raise RuntimeError(f"harness: after {op} a by-identity reference is no longer what its name resolves to")
+
         # ---- bookkeeping for the evidence -----------------------------------------------------
         if not res.raised:
+            if kind == "roundtrip":
+                n = shadowed_spec_refs(idx)
+                self.cnt("roundtrip_spec_refs_with_shadowing_name", n)
+                if n:
+                    self.cnt("roundtrips_with_shadowing_spec_names")
             if kind in EDIT_KINDS and pre["specs"] > 0:
                 self.live_edit_steps += 1
                 self.cnt("edit_steps_with_live_specs")
@@ -405,11 +415,11 @@ def run_case(ctx, case, shrunk_sigs):
 
 def plan(tier: str) -> dict:
     quick = tier == "quick"
-    # ~35 ms of CPU per history on an idle core; shards stop at budget_s, so floors are what ~300 (quick) /
+    # ~45 ms of CPU per history on an idle core; shards stop at budget_s, so floors are what ~300 (quick) /
     # ~6 000 (thorough) histories are certain to produce, i.e. they hold on a heavily loaded machine too
     k = 1 if quick else 20
     return {
-        "cases": 10000 if quick else 200000,
+        "cases": 5000 if quick else 200000,
         "shards": 16,
         "budget_s": 42 if quick else 480,
         "floors": {
@@ -426,6 +436,7 @@ def plan(tier: str) -> dict:
             "clone_annotated_scope:func/sub": 75 * k,
             "roundtrip_annotated_scope:func": 225 * k,
             "roundtrip_annotated_scope:main/sub": 300 * k,
+            "roundtrips_with_shadowing_spec_names": 50 * k,
             "proto_references_checked": 50000 * k,
         },
         "min_nontrivial": 200 * k,
